@@ -14,6 +14,8 @@ From HC Require Import Base Codec Crypto Storage Bitfield Oplog Merkle SrcConsts
 From HC Require Import Base Codec CodecFacts Crypto Storage Bitfield Oplog OplogFacts.
 From HC Require Merkle.
 From HC Require Import Core Refine ClearRefine Unified1 Unified3.
+From HC Require CodecTie.
+From HC Require Import CodecDesc SrcCodec OplogTie.
 
 Theorem C06_header_roundtrip : forall h r, header_ok h = true -> dec_header (enc_header h ++ r) = Ok (h, r).
 Proof. exact dec_enc_header. Qed.
@@ -69,6 +71,139 @@ Theorem C06_source_constants :
      tied src_LEADER_SIZE (len fr - len payload) /\ tied src_CRC_SIZE (len (le_bytes 4 (cr_crc cr [])))).
 Proof. exact source_constants_are_the_models. Qed.
 
+(* Tie of the oplog codecs to the source, regenerated on every run: tools/srccodec.py parses src/oplog/entry.rs and
+   src/oplog/header.rs into SrcCodec.v — the macro-form impls (EntryTreeUpgrade, HeaderTree, HeaderHints) as field lists, the
+   imperative impl of Entry as, for encoded_size / encode / decode separately, the sections with the flag bit that announces each
+   (encode: `flags |= N`, decode: `flags & N != 0`), BitfieldUpdate as flag byte + fields, Header as leading bytes + key + fields.
+   `tied_src None _` (impl no longer in the recognised form) is True. For every impl that was found, the codec of Oplog.v is the
+   generic interpretation of the source's description (OplogTie.v): same fields, same order, same types, and for Entry the same
+   bit for the same section in entry_flags / enc_entry AND in dec_entry (the model's `N.testbit flags k` is `flags & 2^k != 0`,
+   C06_oplog_interpreter). Oplog.v has no function for the hints alone: enc_hints / dec_hints are the hints part of enc_header /
+   dec_header (which the Header clause shows); it has no size functions: the size clauses say that the source's size list,
+   interpreted, is the length of what the model's encoder writes. *)
+Theorem C06_source_codecs :
+  tied_src src_EntryTreeUpgrade (is_ocodec env_tree_upgrade build_tree_upgrade enc_tree_upgrade dec_tree_upgrade) /\
+  tied_src src_HeaderTree (is_ocodec env_header_tree build_header_tree enc_header_tree dec_header_tree) /\
+  tied_src src_HeaderHints (is_ocodec env_hints build_hints enc_hints dec_hints) /\
+  tied_src2 src_BitfieldUpdate src_BitfieldUpdate_flag is_bf_update_codec /\
+  tied_src src_Entry is_entry_codec /\
+  tied_src2 src_Header src_Header_lead is_header_codec.
+Proof. exact source_oplog_codecs_are_the_models. Qed.
+
+(* what the statement above says, spelled out (the definitions live in OplogTie.v; these pin their meaning) *)
+Theorem C06_source_codecs_meaning :
+  (forall A (P : A -> Prop), tied_src None P <-> True) /\ (forall A d (P : A -> Prop), tied_src (Some d) P <-> P d) /\
+  (forall A B d f (P : A -> B -> Prop), tied_src2 (Some d) (Some f) P <-> P d f) /\
+  (forall A B f (P : A -> B -> Prop), tied_src2 None f P <-> True) /\
+  (forall A B d (P : A -> B -> Prop), tied_src2 (Some d) None P <-> True) /\
+  (forall A (envA : A -> oenv) buildA enc dec d,
+     is_ocodec envA buildA enc dec d <->
+     (forall x, Ok (enc x) = ogenc (cd_enc d) (envA x)) /\
+     (forall x, Ok (len (enc x)) = ogsize (cd_size d) (envA x)) /\
+     (forall b, dec b = ogdecode buildA (cd_dec_types d) (cd_ctor d) b) /\
+     cd_dec_types d = map snd (cd_enc d) /\ cd_ctor d = map fst (cd_enc d) /\ cd_size d = cd_enc d) /\
+  (forall d f,
+     is_bf_update_codec d f <->
+     (forall u, Ok (enc_bf_update u) =
+                (fl <- oflagbyte (fb_enc f) (env_bf_update u) ;; body <- ogenc (cd_enc d) (env_bf_update u) ;;
+                 Ok ([fl] ++ body))) /\
+     (forall u, Ok (len (enc_bf_update u)) = (s <- ogsize (cd_size d) (env_bf_update u) ;; Ok (fb_size f + s))) /\
+     (forall b, dec_bf_update b =
+                ('(fl, r) <- dec_byte b ;; '(l, r') <- ogdec (cd_dec_types d) (cd_ctor d) r ;;
+                 ofinish build_bf_update (oflagvals (fb_dec f) fl ++ l) r')) /\
+     fb_dec f = fb_enc f /\ fb_size f = 1 /\
+     cd_dec_types d = map snd (cd_enc d) /\ cd_ctor d = map fst (cd_enc d) /\ cd_size d = cd_enc d) /\
+  (forall d,
+     is_entry_codec d <->
+     (forall e, Ok (entry_flags e) = oflags (fd_enc d) (env_entry e)) /\
+     (forall e, enc_entry e = oenc_flagged (fd_enc d) (env_entry e)) /\
+     (forall b, dec_entry b = odec_flagged build_entry (fd_dec d) b) /\
+     (forall e b, enc_entry e = Ok b ->
+                  Ok (len b) = (s <- osecs_size (fd_size d) (env_entry e) ;; Ok (fd_size_lead d + s))) /\
+     fd_dec d = fd_enc d /\ fd_size d = map (fun x => (fst (fst x), snd x)) (fd_enc d) /\ fd_size_lead d = 1) /\
+  (forall d l,
+     is_header_codec d l <->
+     (forall h, Ok (enc_header h) = (body <- ogenc (cd_enc d) (env_header h) ;; Ok (hl_bytes l ++ body))) /\
+     (forall b, dec_header b =
+                ('(_, r) <- dec_fixed (N.to_nat (hl_dec_skip l)) b ;;
+                 ogdecode build_header (cd_dec_types d) (cd_ctor d) r)) /\
+     hl_dec_skip l = len (hl_bytes l) /\ hl_size l = len (hl_bytes l) /\
+     cd_dec_types d = map snd (cd_enc d) /\ cd_ctor d = map fst (cd_enc d) /\ cd_size d = cd_enc d).
+Proof.
+  repeat match goal with |- _ /\ _ => split end; intros;
+    unfold tied_src, tied_src2, is_ocodec, is_bf_update_codec, is_entry_codec, is_header_codec;
+    try destruct f; tauto.
+Qed.
+
+(* the generic interpreters, by their defining equations; in particular the decoder's bit test is `flags & bit != 0` and
+   the model's `N.testbit flags k` is that test for bit 2^k *)
+Theorem C06_oplog_interpreter :
+  (forall flags bit, flag_set flags bit = negb (N.land flags bit =? 0)%N) /\
+  (forall a k, N.testbit a k = flag_set a (2 ^ k)) /\
+  (forall e, ogenc [] e = Ok [] /\ ogsize [] e = Ok 0%N /\ oflags [] e = Ok 0%N /\ obody [] e = Ok [] /\
+             oflagbyte [] e = Ok 0%N) /\
+  (forall name t r e,
+     ogenc ((name, t) :: r) e = (a <- oenc_field t (e name) ;; b <- ogenc r e ;; Ok (a ++ b)%list) /\
+     ogsize ((name, t) :: r) e = (a <- osize_field t (e name) ;; b <- ogsize r e ;; Ok (a + b)%N)) /\
+  (forall name bit t r e,
+     oflags ((name, bit, t) :: r) e =
+       (p <- sec_present (e name) ;; f <- oflags r e ;; Ok (if p then N.lor bit f else f)) /\
+     obody ((name, bit, t) :: r) e =
+       (p <- sec_present (e name) ;; a <- (if p then sec_enc t (e name) else Ok []) ;; b <- obody r e ;;
+        Ok (a ++ b)%list)) /\
+  (forall l e, oenc_flagged l e = (f <- oflags l e ;; b <- obody l e ;; Ok ([f] ++ b)%list)) /\
+  (forall flags b, osecs_dec [] flags b = Ok ([], b)) /\
+  (forall name bit t r flags b,
+     osecs_dec ((name, bit, t) :: r) flags b =
+       ('(v, b1) <- (if flag_set flags bit then sec_dec t b else d <- sec_default t ;; Ok (d, b)) ;;
+        '(rest, b2) <- osecs_dec r flags b1 ;; Ok ((name, v) :: rest, b2))) /\
+  (forall A (build : oenv -> option A) l b,
+     odec_flagged build l b = ('(flags, r) <- dec_byte b ;; '(vs, r') <- osecs_dec l flags r ;; ofinish build vs r')) /\
+  (forall l, sec_present (Some (ONs l)) = Ok (match l with [] => false | _ => true end)) /\
+  (forall o, sec_present (Some (OOptTU o)) = Ok (match o with Some _ => true | None => false end)) /\
+  (forall o, sec_present (Some (OOptBU o)) = Ok (match o with Some _ => true | None => false end)) /\
+  sec_present (Some OStrs) = Ok false /\
+  (forall l, sec_enc FNodes (Some (ONs l)) = enc_nodes l) /\
+  (forall u, sec_enc (FRec "EntryTreeUpgrade"%string) (Some (OOptTU (Some u))) = Ok (enc_tree_upgrade u)) /\
+  (forall u, sec_enc (FRec "BitfieldUpdate"%string) (Some (OOptBU (Some u))) = Ok (enc_bf_update u)) /\
+  (forall n, oenc_field FU64 (Some (OU n)) = Ok (enc_uint n)) /\
+  (forall v, oenc_field FBytes (Some (OB v)) = Ok (enc_buffer v)) /\
+  (forall h, oenc_field FHash32 (Some (OH h)) = Ok h) /\
+  oenc_field FStrings (Some OStrs) = Ok [0%N] /\
+  (forall ns pk, oenc_field (FRec "Manifest"%string) (Some (OManifest ns pk)) = Ok ([0; 0; 1] ++ [0] ++ ns ++ pk)%list%N) /\
+  (forall k, oenc_field (FRec "PartialKeypair"%string) (Some (OKeypair k)) = Ok (enc_keypair k)) /\
+  (forall t, oenc_field (FRec "HeaderTree"%string) (Some (OTree t)) = Ok (enc_header_tree t)) /\
+  (forall c, oenc_field (FRec "HeaderHints"%string) (Some (OHints c)) = Ok ([0%N] ++ enc_uint c)%list) /\
+  (forall t, oenc_field t None = Panic CodecTie.MISMATCH) /\
+  (forall s v, oenc_field (FOther s) v = Panic CodecTie.MISMATCH) /\
+  (forall x, build_tree_upgrade (env_tree_upgrade x) = Some x) /\
+  (forall x, build_header_tree (env_header_tree x) = Some x) /\
+  (forall x, build_hints (env_hints x) = Some x) /\
+  (forall x, build_bf_update (env_bf_update x) = Some x) /\
+  (forall x, build_entry (env_entry x) = Some x) /\
+  (forall x, build_header (env_header x) = Some x).
+Proof. exact oplog_interpreter_spec. Qed.
+
+(* sensitivity: the repaired defect D1 (decode testing `flags & 2` for the tree_upgrade section), another version byte,
+   HeaderTree fields in another order — none of them is the model *)
+Example C06_ex_d1_wrong_decode_bit_refuted :
+  ~ (forall b, dec_entry b =
+       odec_flagged build_entry
+         [("user_data", 1, FStrings); ("tree_nodes", 2, FNodes); ("tree_upgrade", 2, FRec "EntryTreeUpgrade");
+          ("bitfield", 8, FRec "BitfieldUpdate")]%string b).
+Proof. exact d1_wrong_decode_bit_refuted. Qed.
+Example C06_ex_version_byte_refuted :
+  ~ is_header_codec
+      {| cd_size := []; cd_dec_types := []; cd_ctor := [];
+         cd_enc := [("key", FHash32); ("manifest", FRec "Manifest"); ("key_pair", FRec "PartialKeypair");
+                    ("user_data", FStrings); ("tree", FRec "HeaderTree"); ("hints", FRec "HeaderHints")]%string |}
+      {| hl_bytes := [0; 6]; hl_dec_skip := 2; hl_size := 2 |}.
+Proof. exact version_byte_refuted. Qed.
+Example C06_ex_header_tree_swap_refuted :
+  ~ (forall t, Ok (enc_header_tree t) =
+       ogenc [("fork", FU64); ("length", FU64); ("signature", FBytes); ("root_hash", FBytes)]%string (env_header_tree t)).
+Proof. exact header_tree_swap_refuted. Qed.
+
 Theorem C06_reader_agrees_with_api_state :
   forall cr : crypto,
          crc_ok cr ->
@@ -100,3 +235,6 @@ Print Assumptions C06_trailing_partials_dropped.
 Print Assumptions C06_slot_rule.
 Print Assumptions C06_source_constants.
 Print Assumptions C06_reader_agrees_with_api_state.
+Print Assumptions C06_source_codecs.
+Print Assumptions C06_source_codecs_meaning.
+Print Assumptions C06_oplog_interpreter.
